@@ -138,6 +138,20 @@ theorem gray_getitem_never_returns : ∀ (fuel : Nat) (key : Int × Int × Int),
 
 theorem gray_init_eq (imgs : NdArr K) : gray_init imgs = some imgs := rfl
 
+/-! ## `ToImageStack.__init__` -/
+
+/-- **`ToImageStack.__init__` as translated, `resolution` a number**: the field is the float32 conversion of three copies; never raises -/
+theorem tostack_init_scalar_eq (cast : DType → K → K) (a : K) :
+    tostack_init_scalar cast a = some ([cast .f32 a, cast .f32 a, cast .f32 a], ()) := by
+  simp [tostack_init_scalar, tostack_init_scalar.body, Py.seq, Py.finish, Py.len]
+
+/-- **`ToImageStack.__init__` as translated, `resolution` a sequence**: its float32 conversion when it has exactly three entries, AssertionError
+otherwise -/
+theorem tostack_init_array_eq (cast : DType → K → K) (l : List K) :
+    tostack_init_array cast l = if l.length = 3 then some (l.map (cast .f32), ()) else none := by
+  have e3 : ((l.length : Int) = 3) ↔ l.length = 3 := by omega
+  by_cases h : l.length = 3 <;> simp [tostack_init_array, tostack_init_array.body, Py.seq, Py.skip, Py.finish, Py.len, h, e3]
+
 end generic
 
 /-! ## `transform` with the frame conversion `(255 * voxel[..., 0, 0]).astype(np.uint8)` translated -/
